@@ -3,7 +3,8 @@
 (* C01, binding E: TLC evaluates AEAD!Seal for the boundary grid of        *)
 (* (plaintext length, AD length) classes - the branch boundaries of the    *)
 (* amd64 assembly (16, 32, 64, 128, 160, 192, 256, 320, 384, 480, 512;     *)
-(* AD length 13) and their neighbours - for both nonce sizes, with key,    *)
+(* AD length 13, and AD lengths = 13 mod 256) and their neighbours - for   *)
+(* both nonce sizes, with key,                                             *)
 (* nonce, plaintext and AD produced by Pat(seed, len), and prints          *)
 (*   TRACE {"v","kseed","nseed","pseed","aseed","ptLen","adLen","out"}     *)
 (* out = ciphertext || tag.  For plaintexts up to OpenMax it also checks   *)
@@ -41,9 +42,11 @@ G(V, P, A) == {<<v, p, a>> : v \in V, p \in P, a \in A}
 GridQuick == G({"std"}, PtQuick, {0, 13}) \cup G({"std"}, {0, 17, 65, 129}, {1, 12, 14, 15, 16, 17, 32, 33})
         \cup G({"x"}, {0, 1, 16, 63, 64, 65, 129, 257}, {0, 13}) \cup G({"x"}, {17}, {1, 16, 33})
         \cup {<<"std", 320, 13>>, <<"std", 385, 0>>, <<"x", 513, 5>>}
+        \cup G({"std"}, {17}, {268, 269, 270, 525}) \cup G({"x"}, {17}, {269})   \* AD length = 13 mod 256
 PtFull == PtQuick \cup {319, 320, 321, 383, 384, 385, 479, 480, 481, 511, 512, 513, 1024}
 AdFull == {0, 1, 12, 13, 14, 15, 16, 17, 32, 33}
 GridThorough == G({"std", "x"}, PtFull, AdFull) \cup G({"std", "x"}, {0, 16, 64, 193}, {47, 48, 49, 64, 80, 200})
+        \cup G({"std", "x"}, {0, 17, 129}, {255, 256, 257, 268, 269, 270, 511, 512, 513, 524, 525, 526, 781, 1037})
 SeedsQuick == {<<7, 11, 5, 9>>}
 SeedsThorough == {<<7, 11, 5, 9>>, <<1, 1, 1, 1>>, <<23, 3, 42, 77>>}
 =============================================================================
